@@ -95,6 +95,44 @@ Proof.
   replace (Z.max (q - 1) 0) with (q - 1) by lia. replace (Z.max 0 (- - q)) with q by lia. ring.
 Qed.
 
+(* EXACTLY when: the step divides the span, or the loop has a single iteration *)
+Lemma floor_exact_arith n s : s <> 0 -> 0 < - ((- n) / s) ->
+  (Z.max (n / s - 1) 0 * s = (- ((- n) / s) - 1) * s <-> (n mod s = 0 \/ - ((- n) / s) = 1)).
+Proof.
+  intros Hs Hc. split.
+  - intros H. assert (H' : Z.max (n / s - 1) 0 = - (- n / s) - 1) by nia. clear H.
+    destruct (Z.eq_dec (n mod s) 0) as [E|E]; [left; exact E|right].
+    assert (Hq : - (- n / s) = n / s + 1).
+    { pose proof (Z.div_mod n s Hs). pose proof (Z.div_mod (-n) s Hs). pose proof (Z.mod_pos_bound n s). pose proof (Z.mod_neg_bound n s).
+      pose proof (Z.mod_pos_bound (-n) s). pose proof (Z.mod_neg_bound (-n) s). nia. }
+    lia.
+  - intros [H|H].
+    + assert (Hq : - (- n / s) = n / s).
+      { pose proof (Z.div_mod n s Hs). pose proof (Z.div_mod (-n) s Hs). pose proof (Z.mod_pos_bound (-n) s). pose proof (Z.mod_neg_bound (-n) s). nia. }
+      rewrite Hq in *. f_equal. lia.
+    + rewrite H.
+      assert (Hq : n / s <= 1).
+      { pose proof (Z.div_mod n s Hs). pose proof (Z.div_mod (-n) s Hs). pose proof (Z.mod_pos_bound n s). pose proof (Z.mod_neg_bound n s).
+        pose proof (Z.mod_pos_bound (-n) s). pose proof (Z.mod_neg_bound (-n) s). nia. }
+      f_equal. lia.
+Qed.
+
+Lemma floor_final_index_exact a o s ks : py_range a o s = Some ks -> ks <> [] ->
+  (floor_final_index a o s = last ks 0 <-> ((o - a) mod s = 0 \/ length ks = 1%nat)).
+Proof.
+  intros H Hne. rewrite (py_range_last_ceil _ _ _ _ H Hne).
+  destruct (py_range_spec _ _ _ _ H) as (Hs & Hlen & _).
+  rewrite range_len_ceil in Hlen by assumption. rewrite Qceil_div in * by assumption.
+  assert (Hpos : 0 < - (- (o - a) / s)) by (destruct ks; [congruence|cbn [length] in Hlen; lia]).
+  replace (Z.max 0 (- (- (o - a) / s))) with (- (- (o - a) / s)) in * by lia.
+  unfold floor_final_index. pose proof (floor_exact_arith (o - a) s Hs Hpos) as HE.
+  split.
+  - intros Hx. assert (Hy : Z.max ((o - a) / s - 1) 0 * s = (- (- (o - a) / s) - 1) * s) by lia.
+    apply HE in Hy. destruct Hy as [Hy|Hy]; [left; exact Hy|right; lia].
+  - intros [Hx|Hx]; [|assert (Hy : - (- (o - a) / s) = 1) by lia]; [apply or_introl with (B := - (- (o - a) / s) = 1) in Hx|apply or_intror with (A := (o - a) mod s = 0) in Hy];
+      [apply HE in Hx|apply HE in Hy]; lia.
+Qed.
+
 Lemma floor_final_index_wrong : exists a o s ks, py_range a o s = Some ks /\ ks <> [] /\ floor_final_index a o s <> last ks 0.
 Proof. exists 0, 5, 2, [0; 2; 4]. split; [reflexivity|]. split; [discriminate|]. vm_compute. discriminate. Qed.
 
